@@ -466,7 +466,7 @@ def run(R, ctx):
         "Static capture/store/replay coverage: full_moon's token accessors (from crate metadata) vs. calls in the converter, "
         "*Tokens struct fields vs. their initialisers, every token-bearing AST slot vs. the writer calls of the token-based generator, "
         "plus dispatch, emission order and the retain_lines wiring. Decides that no token slot is forgotten on the way in or out; "
-        "does not decide spacing or parenthesis choices."
+        "does not decide spacing or parenthesis choices. Decision / transfer functions among these are decided by finite-domain evaluation of their typed tree (sa/peval.py): every point of a small abstract domain is evaluated and compared with the reference; nothing is sampled and no program input exists."
     )
     R.assumptions += ["coverage is per (ADT, slot) over the generator family, not path-sensitive",
                       "full_moon's public accessor list is read from its crate metadata through rustc"]
